@@ -526,6 +526,11 @@ class M(Model):
             act[k] = _CODE[(nxt[0] - p[0], nxt[1] - p[1])]
         return act
 
+    def crowd_step(self, s, episode_seed, r=0):
+        """Driver hook for the 'crowd' plan mode: a short list of hub cells per episode (from the reset key)."""
+        hubs = [((int(episode_seed[0]) + 3 * i) % self.G, (int(episode_seed[1]) + 5 * i + 1) % self.G) for i in range(4)]
+        return self.crowd_action(s, hubs)
+
     def crowd_action(self, s, hub):
         """Adversarial policy: agents gather around the first still empty cell of the list `hub` and then enter
         it in the same step (collision of up to four agents).  Falls back to the solver when no hub is left."""
